@@ -85,3 +85,117 @@ def divisions_from_statistics(flag: bool) -> int:
 HARNESSES.append(dict(module=__name__, fn="divisions_from_statistics", props=["C18", "C06"], tier="quick", timeout=300, kind="sweep",
                       bounds="exhaustive: 1..3 files, every (min, max) over a 4-value ordered domain (pandas inside: no symbolic variable)",
                       functions=["dask_expr.io.parquet._divisions_from_statistics"]))
+
+
+# ---- partition lengths answered from statistics, with a partition selection (C18 / C11 / C06) ---------------------------------
+
+def _sel_ok(sel, n):
+    for i in sel:
+        if not (0 <= i < n):
+            return False
+    return True
+
+
+def pq_lengths_fsspec(n0: int, n1: int, n2: int, n3: int, s0: int, s1: int, filtered: bool, prefetched: bool) -> int:
+    """
+    pre: 0 <= n0 and 0 <= n1 and 0 <= n2 and 0 <= n3
+    """
+    import types
+    from types import SimpleNamespace
+
+    import dask_expr.io.parquet as pq
+
+    rows = [n0, n1, n2, n3]
+    sel = [s0, s1]
+    if not _sel_ok(sel, 4):
+        return 0
+    stats = [{"num-rows": r} for r in rows]
+    part_ids = sel if filtered else list(range(4))
+    fake = SimpleNamespace(filters=None, _pq_length_stats=None, _plan={"statistics": stats if prefetched else None, "parts": list(range(4))},
+                           _filtered=filtered, _partitions=part_ids)
+    fake._update_length_statistics = types.MethodType(pq.ReadParquetFSSpec._update_length_statistics, fake)
+    fake._io_func = SimpleNamespace(fs=None)
+    saved = (pq._is_local_fs, pq._read_partition_stats_group)
+    # the real _collect_pq_statistics chooses the parts; the footer reader behind it returns the statistics of the parts it is
+    # handed, in that order
+    pq._is_local_fs = lambda fs: True
+    pq._read_partition_stats_group = lambda parts, fs, columns=None: [stats[p] for p in parts]
+    try:
+        got = pq.ReadParquetFSSpec._get_lengths(fake)
+        again = pq.ReadParquetFSSpec._get_lengths(fake)  # the cached statistics must give the same answer
+    finally:
+        pq._is_local_fs, pq._read_partition_stats_group = saved
+    want = tuple(rows[i] for i in part_ids)
+    if got != want or again != want:
+        return 2
+    return 1
+
+
+def pq_lengths_arrow(n0: int, n1: int, n2: int, s0: int, s1: int, o0: int, o1: int, o2: int, sorted_: bool) -> int:
+    """
+    pre: 0 <= n0 and 0 <= n1 and 0 <= n2
+    """
+    from types import SimpleNamespace
+
+    import dask_expr.io.parquet as pq
+
+    rows = [n0, n1, n2]
+    sel = [s0, s1]
+    order = [o0, o1, o2]
+    if not _sel_ok(sel, 3) or sorted(order) != [0, 1, 2]:
+        return 0
+    # partition k of the collection is fragment order[k] (statistics-based ordering) or fragment k
+    frag_of = order if sorted_ else [0, 1, 2]
+    fake = SimpleNamespace(filters=None, aggregated_statistics=[{"num_rows": r} for r in rows], _partitions=sel, _filtered=True,
+                           _fragment_sort_index=lambda: (order if sorted_ else None))
+    got = pq.ReadParquetPyarrowFS._get_lengths(fake)
+    want = tuple(rows[frag_of[i]] for i in sel)
+    if got != want:
+        return 2
+    return 1
+
+
+HARNESSES.append(dict(module=__name__, fn="pq_lengths_fsspec", props=["C18", "C11", "C06"], tier="quick", timeout=180,
+                      bounds="4 partitions with symbolic row counts; a selection of 2 symbolic partition numbers (any order, repeats) or none; statistics pre-fetched or read on demand",
+                      functions=["dask_expr.io.parquet.ReadParquetFSSpec._get_lengths", "ReadParquetFSSpec._update_length_statistics", "_collect_pq_statistics (footer reader stubbed)"],
+                      api_replay="api_pq_lengths"))
+HARNESSES.append(dict(module=__name__, fn="pq_lengths_arrow", props=["C18", "C11", "C06"], tier="quick", timeout=180,
+                      bounds="3 fragments with symbolic row counts; a symbolic fragment ordering (statistics-based sort) or none; a selection of 2 symbolic partition numbers",
+                      functions=["dask_expr.io.parquet.ReadParquetPyarrowFS._get_lengths"],
+                      api_replay="api_pq_lengths"))
+
+
+def api_pq_lengths(*args):
+    """public API: partition lengths / len() of a partition-selected parquet read equal the computed row counts (both readers)"""
+    import os
+    import shutil
+    import warnings
+
+    import dask
+    import pandas as pd
+    from dask import delayed
+
+    import dask_expr as dx
+    from vf.common import WORK
+
+    warnings.simplefilter("ignore")
+    d = os.path.join(WORK, "pq_lengths")
+    shutil.rmtree(d, ignore_errors=True)
+    msgs = []
+    with dask.config.set({"dataframe.convert-string": False}):
+        lens = [1, 2, 3, 4]
+        pdf = pd.DataFrame({"x": range(sum(lens))})
+        chunks, s = [], 0
+        for n in lens:
+            chunks.append(pdf.iloc[s:s + n])
+            s += n
+        dx.from_delayed([delayed(c) for c in chunks], meta=pdf.iloc[:0], divisions=[0, 1, 3, 6, 9]).to_parquet(d)
+        for kw in ({}, {"filesystem": "arrow"}):
+            for sel in ([1, 3], [3, 1], [0, 0], [2]):
+                r = dx.read_parquet(d, **kw)
+                x = r.partitions[sel].optimize()
+                want = [len(p) for p in dask.compute(*r.partitions[sel].to_delayed())]
+                if len(x) != sum(want):
+                    msgs.append(f"read_parquet({kw}).partitions[{sel}].optimize(): len() == {len(x)}, computed {sum(want)}")
+    shutil.rmtree(d, ignore_errors=True)
+    return bool(msgs), "; ".join(msgs[:3]) or "lengths of partition-selected parquet reads equal the computed counts"
